@@ -1074,7 +1074,8 @@ def _extra_task(x):
 
         from . import s3resolve
 
-        return {"obligations": s2merge.verify_merge(x[1]) + s3resolve.verify_option(x[1]), "trusted": ["S2 loop rule: the two `for key, value in X.items()` loops of Dialect.merge are pointwise map loops (checked syntactically), analysed at one symbolic key"]}
+        # S4: the order in which the levels are offered to the strategy lookup (call dialect > Config.dialect > Config > format dialect)
+        return {"obligations": s2merge.verify_merge(x[1]) + s3resolve.verify_option(x[1]) + s3resolve.verify_iter(x[1]), "trusted": ["S2 loop rule: the two `for key, value in X.items()` loops of Dialect.merge are pointwise map loops (checked syntactically), analysed at one symbolic key"]}
     return fcodec_task(x)
 
 
